@@ -18,12 +18,13 @@ structure KInv (gh : Ghost) (st : St) (int : Nat → Nat) : Prop extends SInvB g
   up : ∀ (i : Nat) (w : Win), LiveW st.tree i w → w.refcount ≤ ((getX st i).appRefs : Int) + (gh.win i : Int) + (int i : Int) ∧
     (i = 0 → ((getX st i).appRefs : Int) + (gh.win i : Int) + (int i : Int) ≤ w.refcount)
   lo : ∀ (i : Nat) (w : Win), LiveW st.tree i w → 1 + (int i : Int) ≤ w.refcount
+  glive : 0 < gh.win 0 → ∃ r, LiveW st.tree 0 r
 
 theorem KInv.of_inv {st : St} (inv : SInv gh st) : KInv gh st (fun _ => 0) :=
-  ⟨inv.toSInvB, fun i w hl => by have := inv.wref i w hl; simpa using this, fun i w hl => by have := inv.rc i w hl; simpa using this⟩
+  ⟨inv.toSInvB, fun i w hl => by have := inv.wref i w hl; simpa using this, fun i w hl => by have := inv.rc i w hl; simpa using this, inv.glive⟩
 
 theorem KInv.to_inv {st : St} (K : KInv gh st (fun _ => 0)) : SInv gh st :=
-  ⟨K.toSInvB, fun i w hl => by have := K.up i w hl; simpa using this⟩
+  ⟨K.toSInvB, fun i w hl => by have := K.up i w hl; simpa using this, K.glive⟩
 
 /-- Nothing is freed, the terminal is untouched. -/
 structure Pres (st st' : St) : Prop where
@@ -56,7 +57,10 @@ theorem KInv.of_tree {st : St} {int : Nat → Nat} (K : KInv gh st int) {t' : Tr
       subst e
       have hfl : w.freed = false := by rw [← hf]; exact hl'.2
       exact ⟨w, ⟨hw, hfl⟩, hr hfl⟩
-  refine ⟨⟨K.toSInvB.of_tree hinv hsz ?_, ?_, ?_⟩, ⟨hsz, ?_, rfl⟩⟩
+  refine ⟨⟨K.toSInvB.of_tree hinv hsz ?_, ?_, ?_, fun hg => by
+    obtain ⟨r, hr⟩ := K.glive hg
+    obtain ⟨w', hw', hf, _⟩ := h 0 r hr.1
+    exact ⟨w', hw', by rw [hf]; exact hr.2⟩⟩, ⟨hsz, ?_, rfl⟩⟩
   · intro i w hw
     obtain ⟨w', hw', hf, hr⟩ := h i w hw
     exact ⟨w', hw', hf, fun hfl h1 => by rw [hr hfl]; exact h1⟩
@@ -93,7 +97,7 @@ theorem KInv.of_closed {st : St} {int : Nat → Nat} (K : KInv gh st int) {t' : 
 /-- A change of a window's record that keeps its pen and the application's tally. -/
 theorem KInv.setX_same {st : St} {int : Nat → Nat} (K : KInv gh st int) (i : Nat) (x : WinX) (hp : x.pen = (getX st i).pen)
     (ha : x.appRefs = (getX st i).appRefs) : KInv gh (setX st i x) int ∧ Pres st (setX st i x) := by
-  refine ⟨⟨K.toSInvB.of_wx rfl rfl rfl rfl rfl (setX_map_pen x hp), ?_, K.lo⟩, ⟨rfl, fun _ w h => ⟨w, h⟩, rfl⟩⟩
+  refine ⟨⟨K.toSInvB.of_wx rfl rfl rfl rfl rfl (setX_map_pen x hp), ?_, K.lo, K.glive⟩, ⟨rfl, fun _ w h => ⟨w, h⟩, rfl⟩⟩
   intro j w hl
   rw [getX_setX]
   split
@@ -117,7 +121,11 @@ theorem KInv.set_refcount_x {st : St} {int : Nat → Nat} (K : KInv gh st int) {
     show getX (setX st win x) j = _
     rw [getX_setX]
     simp only [hlt, and_true]
-  refine ⟨⟨KB.of_tree (t' := WinTree.set st.tree win { ww with refcount := r }) inv' (set_size _ _ _) ?_, ?_, ?_⟩,
+  refine ⟨⟨KB.of_tree (t' := WinTree.set st.tree win { ww with refcount := r }) inv' (set_size _ _ _) ?_, ?_, ?_, fun hg => by
+      obtain ⟨r0, hr0⟩ := K.glive hg
+      by_cases h0 : win = 0
+      · subst h0; exact ⟨_, hl0⟩
+      · exact ⟨r0, by show (WinTree.set st.tree win _).wins[0]? = some r0; rw [set_get_ne _ h0]; exact hr0.1, hr0.2⟩⟩,
     ⟨set_size _ _ _, ?_, rfl⟩⟩
   · intro i w hwi
     have hwi' : st.tree.wins[i]? = some w := hwi
@@ -383,7 +391,7 @@ theorem runBinds_go_keep {cfg : Cfg} (R : Repaired cfg) (win : Id) (ev : Ev) (ta
       dsimp only
       split
       · have K0 : KInv gh { st with log := st.log ++ [tag] } int :=
-          ⟨K.toSInvB.of_wx rfl rfl rfl rfl rfl rfl, K.up, K.lo⟩
+          ⟨K.toSInvB.of_wx rfl rfl rfl rfl rfl rfl, K.up, K.lo, K.glive⟩
         have H0 : KeepingHandlers { st with log := st.log ++ [tag] } := H.of_wx rfl
         obtain ⟨st1, h1, K1, P1, H1⟩ := runActs_keep R (win, c.id) c.acts K0 H0 (H win c hcm)
         have P0 : Pres st { st with log := st.log ++ [tag] } := ⟨rfl, fun _ w h => ⟨w, h⟩, rfl⟩
@@ -700,7 +708,7 @@ theorem emitKeyNew_keep {cfg : Cfg} (R : Repaired cfg) {st : St} (inv : SInv gh 
     have hrl : LiveW st.tree 0 r := ⟨hr, by cases h : r.freed <;> simp_all⟩
     have K0 : KInv gh { st with termIter := true } (fun _ => 0) := by
       have K := KInv.of_inv inv
-      exact ⟨K.toSInvB.of_wx rfl rfl rfl rfl rfl rfl, K.up, K.lo⟩
+      exact ⟨K.toSInvB.of_wx rfl rfl rfl rfl rfl rfl, K.up, K.lo, K.glive⟩
     have H0 : KeepingHandlers { st with termIter := true } := H.of_wx rfl
     obtain ⟨st1, b1, h1, K1, P1, H1⟩ := handleKey_keep R (routeFuel { st with termIter := true }) K0 H0 (ww := r) hrl
       (by simp only [routeFuel]; omega)
@@ -708,7 +716,7 @@ theorem emitKeyNew_keep {cfg : Cfg} (R : Repaired cfg) {st : St} (inv : SInv gh 
     have ht1 : st1.term.freed = false := by rw [P1.term]; exact hfree
     simp only [ht1, Bool.false_eq_true, if_false, pure_ok]
     refine ⟨_, rfl, ?_, H1.of_wx rfl⟩
-    have K2 : KInv gh { st1 with termIter := false } (fun _ => 0) := ⟨K1.toSInvB.of_wx rfl rfl rfl rfl rfl rfl, K1.up, K1.lo⟩
+    have K2 : KInv gh { st1 with termIter := false } (fun _ => 0) := ⟨K1.toSInvB.of_wx rfl rfl rfl rfl rfl rfl, K1.up, K1.lo, K1.glive⟩
     exact K2.to_inv
 
 /-- The operation `key`: `tickit_term_emit_key` with handlers that free nothing. -/
